@@ -515,6 +515,7 @@ func entityLookupFor(keyArg ssa.Value) *ssa.Call {
 
 func c03r3(c *core.Ctx) {
 	p := c.P
+	freshEphemeralKeyPerExchange(c)
 	m := buildStepModel(p, "hap/pair", "VerifyServerController", tVerifyCtrl)
 	if m == nil {
 		c.Undecided("VerifyServerController.Handle", token.NoPos, "not found")
@@ -824,5 +825,66 @@ func c03r4(c *core.Ctx) {
 		}
 		c.Check(okEnc, "Connection."+spec.name+"/encrypted-branch", f.Pos(), "the encrypted path is taken only when the session has a cryptographer", "Connection."+spec.name+" can take the encrypted path without a cryptographer")
 		c.Check(okRaw, "Connection."+spec.name+"/plaintext-branch", f.Pos(), "the plaintext path is taken only when the session has no cryptographer", "Connection."+spec.name+" can use the raw socket although a cryptographer is installed")
+	}
+}
+
+// freshEphemeralKeyPerExchange: the accessory's Curve25519 key pair belongs to one exchange. The signature in the finish message is
+// over (controller ephemeral key, name, accessory ephemeral key) and sealed under a key derived from the two ephemeral keys; with
+// an accessory key that lives as long as the connection, a start request repeated byte for byte is answered with the same key, the
+// shared secret is the same, and the finish message recorded in an earlier exchange fits: the connection becomes verified by
+// a party that only repeats bytes (start, out-of-order start, genuine finish — refused — then both again). The start handler
+// stores a session created by NewVerifySession in that handler before it sends its public key. (The setup controller's twin is
+// fresh-challenge-per-exchange, C02-R5.)
+func freshEphemeralKeyPerExchange(c *core.Ctx) {
+	p := c.P
+	m := buildStepModel(p, "hap/pair", "VerifyServerController", tVerifyCtrl)
+	if m == nil {
+		return
+	}
+	isKeyLoad := func(v ssa.Value) bool {
+		found := false
+		walkOperands(v, 5, func(x ssa.Value) {
+			if sliceOfField(x, tVerifySess, "PublicKey") {
+				found = true
+			}
+			if fa, ok := x.(*ssa.FieldAddr); ok && core.TypeIs(fa.X.Type(), tVerifySess) && fieldNameOf(fa) == "PublicKey" {
+				found = true
+			}
+		})
+		return found
+	}
+	n := 0
+	for _, h := range m.handlers {
+		var send ssa.Instruction
+		core.Instrs(h, func(i ssa.Instruction) {
+			if core.IsInvoke(i, qContainer, "SetBytes") && isKeyLoad(core.Args(i)[1]) {
+				send = i
+			}
+		})
+		if send == nil {
+			continue
+		}
+		n++
+		fresh := false
+		core.Instrs(h, func(i ssa.Instruction) {
+			st, ok := i.(*ssa.Store)
+			if !ok {
+				return
+			}
+			if _, isF := core.FieldAddrOf(st.Addr, tVerifyCtrl, "session"); !isF {
+				return
+			}
+			made := core.AnySource(st.Val, func(sv ssa.Value) bool {
+				return core.CallResult(sv, 0, func(ci ssa.Instruction) bool { return core.IsCall(ci, mod+"/hap/pair.NewVerifySession") }) != nil
+			})
+			if made && instrDominates(st, send) {
+				fresh = true
+			}
+		})
+		c.Check(fresh, "fresh-ephemeral-key-per-exchange@"+fname(h), posOf(send), "the public key sent belongs to a verify session created in this start handler",
+			"the start handler answers with the key pair the controller was created with: every exchange on a connection uses the same accessory ephemeral key, a repeated start request yields the same shared secret, and a finish message replayed from an earlier exchange verifies the connection")
+	}
+	if n == 0 {
+		c.Undecided("fresh-ephemeral-key-per-exchange", token.NoPos, "no step handler of the verify controller sends the session's public key")
 	}
 }
